@@ -1,8 +1,10 @@
 package rules
 
 import (
+	"bytes"
 	"fmt"
 	"go/ast"
+	"go/printer"
 	"go/token"
 	"go/types"
 	"math"
@@ -36,7 +38,7 @@ func init() {
 func skeleton(info *types.Info, stmts []ast.Stmt, acc string) string {
 	var b strings.Builder
 	var expr func(e ast.Expr) string
-	expr = func(e ast.Expr) string { return types.ExprString(e) }
+	expr = func(e ast.Expr) string { return fullExprString(e) }
 	// accumulated term: sum += T   |   sum = sum.Add(T.Vector)   |  sum = sum.Add(T)
 	accTerm := func(st ast.Stmt) (string, bool) {
 		as, ok := st.(*ast.AssignStmt)
@@ -122,16 +124,16 @@ func stmtString(s ast.Stmt) string {
 	case *ast.AssignStmt:
 		var l, r []string
 		for _, e := range x.Lhs {
-			l = append(l, types.ExprString(e))
+			l = append(l, fullExprString(e))
 		}
 		for _, e := range x.Rhs {
-			r = append(r, types.ExprString(e))
+			r = append(r, fullExprString(e))
 		}
 		return strings.Join(l, ",") + x.Tok.String() + strings.Join(r, ",")
 	case *ast.IncDecStmt:
-		return types.ExprString(x.X) + x.Tok.String()
+		return fullExprString(x.X) + x.Tok.String()
 	case *ast.ExprStmt:
-		return types.ExprString(x.X)
+		return fullExprString(x.X)
 	}
 	return fmt.Sprintf("%T", s)
 }
@@ -511,4 +513,15 @@ func runAreaSign(c *core.Ctx) []core.Obligation {
 		obs = append(obs, core.Ob("R-AREASIGN", "PolygonFromOrientedLoops:normalise-by-absolute-angle", "-", "", core.Violated, "unresolved anchor"))
 	}
 	return obs
+}
+
+// fullExprString prints an expression completely. types.ExprString abbreviates composite literals to `T{…}`, which hid
+// the argument of `origin = Point{V_0.PointCross(V_i+1).Normalize()}` from the twin comparison (round-11 seeds
+// C18-r11m1, C18-r11m2).
+func fullExprString(e ast.Expr) string {
+	var buf bytes.Buffer
+	if err := printer.Fprint(&buf, token.NewFileSet(), e); err != nil {
+		return types.ExprString(e)
+	}
+	return buf.String()
 }
